@@ -36,6 +36,9 @@ LINES = [
     # a missing selector is the description itself - which may be absolute or a URL: then nothing is put in front of it
     ("1/pub\t", ("link", "1", "/pub", "/pub", None, None)),
     ("hURL:http://example.org/x\t", ("link", "h", "URL:http://example.org/x", "URL:http://example.org/x", None, None)),
+    # URL: selectors are kept as written whatever the scheme looks like (mailto:, news: have no //)
+    ("hWrite to us\tURL:mailto:admin@example.org", ("link", "h", "Write to us", "URL:mailto:admin@example.org", None, None)),
+    ("hThe group\tURL:news:comp.infosystems.gopher", ("link", "h", "The group", "URL:news:comp.infosystems.gopher", None, None)),
     ("  indented text", ("info", "indented text")),
     ("9binary\tfiles/a.bin", ("link", "9", "binary", "{B}/files/a.bin", None, None)),
     # a line ends at the line feed and nowhere else: form feed, vertical tab, a lone CR, U+2028 and U+0085 are part of the text
